@@ -74,3 +74,23 @@ Fixpoint disagreeing_reentry (i : nat) (cs : list ecase) : list nat :=
   | (l, dims, d) :: t =>
       (if natlist_eqb (literal_dims l) dims && dtype_eqb (literal_dtype l) d then [] else [i]) ++ disagreeing_reentry (S i) t
   end.
+
+(* ---- the repaired rule (proposed_fixes C13_04 / C13_09): two repair flags; both false = the rule as read ---- *)
+(* float32 bit pattern with all exponent bits set: nan, inf, -inf (str() prints them as bare names) *)
+Definition nonfinite_bits (x : Z) : bool := Z.leb 2139095040 (Z.modulo x 2147483648).
+Definition has_nonfinite (d : dtype) (data : list Z) : bool :=
+  match d with FLOAT => existsb nonfinite_bits data | _ => false end.
+Definition const_repr_fx (finite_only nonempty_only : bool) (has_tensor : bool) (d : dtype) (dims : list nat) (data : list Z) : option literal :=
+  match const_repr has_tensor d dims data with
+  | Some l =>
+    if finite_only && has_nonfinite d (literal_data l) then None
+    else if nonempty_only && match l with LList _ [] => true | _ => false end then None
+    else Some l
+  | None => None
+  end.
+Fixpoint disagreeing_repr_fx (fin ne : bool) (i : nat) (cs : list rcase) : list nat :=
+  match cs with
+  | [] => []
+  | (ht, d, dims, data, obs) :: t =>
+      (if olit_eqb (const_repr_fx fin ne ht d dims data) obs then [] else [i]) ++ disagreeing_repr_fx fin ne (S i) t
+  end.
